@@ -2352,6 +2352,13 @@ func parseJSONLiteral(s string) (Node, error) {
 
 func parseQuotedIdentifier(s string) (string, error) {
 	v := s[1 : len(s)-1]
+	for j := 0; j < len(v); j++ {
+		if v[j] < 0x20 {
+			// control characters must be escaped, as in a JSON string
+			return "", &invalidQuotedStringError{s}
+		}
+	}
+
 	i := strings.IndexByte(v, '\\')
 	if i == -1 || i+1 == len(v) {
 		return v, nil
